@@ -306,7 +306,7 @@ func runC14(c *Ctx) {
 	}
 	if wk := p.Func("private/pkg/storage", "multiReadBucket.Walk"); wk != nil {
 		okW := false
-		ast.Inspect(wk.Decl.Body, func(n ast.Node) bool {
+		deepInspect(p, wk, 2, func(n ast.Node, _ *types.Info) bool {
 			ifs, ok := n.(*ast.IfStmt)
 			if !ok || ifs.Init == nil {
 				return true
@@ -332,25 +332,43 @@ func runC14(c *Ctx) {
 
 	// (5) mapper pair
 	if mp, um := p.Func("private/pkg/storage", "prefixMapper.MapPath"), p.Func("private/pkg/storage", "prefixMapper.UnmapFullPath"); mp != nil && um != nil {
-		okMap := false
+		// the prefix is identified by type, not by name: the string field of the receiver that MapPath joins in front
+		recvField := func(fr *FuncRef, e ast.Expr) *types.Var {
+			sel, ok := ast.Unparen(e).(*ast.SelectorExpr)
+			if !ok || fr.Decl.Recv == nil || len(fr.Decl.Recv.List[0].Names) == 0 {
+				return nil
+			}
+			if identObj(fr.Info(), sel.X) != fr.Info().Defs[fr.Decl.Recv.List[0].Names[0]] {
+				return nil
+			}
+			v, _ := fr.Info().Uses[sel.Sel].(*types.Var)
+			if v == nil || !v.IsField() {
+				return nil
+			}
+			return v
+		}
+		var prefixField *types.Var
 		ast.Inspect(mp.Decl.Body, func(n ast.Node) bool {
 			if call, ok := n.(*ast.CallExpr); ok {
-				if fn := Callee(mp.Info(), call); fn != nil && calleeIs(fn, "private/pkg/normalpath", "Join") && len(call.Args) == 2 && strings.HasSuffix(exprString(call.Args[0]), ".prefix") {
-					okMap = true
+				if fn := Callee(mp.Info(), call); fn != nil && calleeIs(fn, "private/pkg/normalpath", "Join") && len(call.Args) == 2 {
+					if f := recvField(mp, call.Args[0]); f != nil {
+						prefixField = f
+					}
 				}
 			}
 			return true
 		})
-		c.Ob("MAPPER-PAIR", "prefixMapper.MapPath", mp.Decl.Pos(), okMap, true, "MapPath = normalpath.Join(prefix, path): %v", okMap)
+		c.Ob("MAPPER-PAIR", "prefixMapper.MapPath", mp.Decl.Pos(), prefixField != nil, true, "MapPath = normalpath.Join(<prefix field of the receiver>, path): %v", prefixField != nil)
 		g := p.CFGOf(um.Decl.Body, um.Info())
 		var guard, rel ast.Node
 		ast.Inspect(um.Decl.Body, func(n ast.Node) bool {
-			if call, ok := n.(*ast.CallExpr); ok {
+			if call, ok := n.(*ast.CallExpr); ok && len(call.Args) >= 1 {
 				if fn := Callee(um.Info(), call); fn != nil {
-					if calleeIs(fn, "private/pkg/normalpath", "EqualsOrContainsPath") && strings.HasSuffix(exprString(call.Args[0]), ".prefix") {
+					f := recvField(um, call.Args[0])
+					if calleeIs(fn, "private/pkg/normalpath", "EqualsOrContainsPath") && f != nil && f == prefixField {
 						guard = call
 					}
-					if calleeIs(fn, "private/pkg/normalpath", "Rel") && strings.HasSuffix(exprString(call.Args[0]), ".prefix") {
+					if calleeIs(fn, "private/pkg/normalpath", "Rel") && f != nil && f == prefixField {
 						rel = call
 					}
 				}
@@ -358,28 +376,39 @@ func runC14(c *Ctx) {
 			return true
 		})
 		okU := guard != nil && rel != nil && g.Dominates(guard, rel)
-		c.Ob("MAPPER-PAIR", "prefixMapper.UnmapFullPath", um.Decl.Pos(), okU, true, "UnmapFullPath tests EqualsOrContainsPath(prefix, full) and then returns Rel(prefix, full): %v", okU)
+		c.Ob("MAPPER-PAIR", "prefixMapper.UnmapFullPath", um.Decl.Pos(), okU, true, "UnmapFullPath tests EqualsOrContainsPath(prefix, full) and then returns Rel(prefix, full) with the same prefix field MapPath joins: %v", okU)
 	} else {
 		c.Fail("MAPPER-PAIR", "prefixMapper", token.NoPos, "not found")
 	}
-	if mf, um := p.Func("private/pkg/storage", "chainMapper.mapFunc"), p.Func("private/pkg/storage", "chainMapper.UnmapFullPath"); mf != nil && um != nil {
-		// map: descending index loop; unmap: range (ascending)
+	if um := p.Func("private/pkg/storage", "chainMapper.UnmapFullPath"); um != nil {
+		// map: some mapping method of chainMapper walks the list with a descending index; unmap: range (ascending)
 		desc, asc := false, false
-		ast.Inspect(mf.Decl.Body, func(n ast.Node) bool {
-			if fs, ok := n.(*ast.ForStmt); ok && fs.Post != nil {
-				if inc, ok := fs.Post.(*ast.IncDecStmt); ok && inc.Tok == token.DEC {
-					desc = true
+		var where token.Pos
+		for _, fr := range p.FuncsOf(pkSt) {
+			if recvTypeName(fr.Decl) != "chainMapper" || fr.Decl.Body == nil || strings.HasPrefix(fr.Decl.Name.Name, "Unmap") {
+				continue
+			}
+			ast.Inspect(fr.Decl.Body, func(n ast.Node) bool {
+				if fs, ok := n.(*ast.ForStmt); ok && fs.Post != nil {
+					if inc, ok := fs.Post.(*ast.IncDecStmt); ok && inc.Tok == token.DEC {
+						desc = true
+						where = fr.Decl.Pos()
+					}
+				}
+				return true
+			})
+		}
+		ast.Inspect(um.Decl.Body, func(n ast.Node) bool {
+			if rs, ok := n.(*ast.RangeStmt); ok {
+				if _, isSlice := um.Info().TypeOf(rs.X).Underlying().(*types.Slice); isSlice {
+					asc = true
 				}
 			}
 			return true
 		})
-		ast.Inspect(um.Decl.Body, func(n ast.Node) bool {
-			if rs, ok := n.(*ast.RangeStmt); ok && strings.HasSuffix(exprString(rs.X), ".mappers") {
-				asc = true
-			}
-			return true
-		})
-		c.Ob("MAPPER-PAIR", "chainMapper/opposite-orders", mf.Decl.Pos(), desc && asc, true, "mapping walks the mapper list from last to first (%v) and unmapping from first to last (%v)", desc, asc)
+		c.Ob("MAPPER-PAIR", "chainMapper/opposite-orders", where, desc && asc, true, "mapping walks the mapper list from last to first (%v) and unmapping from first to last (%v)", desc, asc)
+	} else {
+		c.Fail("MAPPER-PAIR", "chainMapper", token.NoPos, "chainMapper.UnmapFullPath not found")
 	}
 
 	// (6) mem walk sorted
@@ -390,7 +419,7 @@ func runC14(c *Ctx) {
 		cbObj := info.Defs[wk.Decl.Type.Params.List[2].Names[0]]
 		ast.Inspect(wk.Decl.Body, func(n ast.Node) bool {
 			if call, ok := n.(*ast.CallExpr); ok {
-				if fn := Callee(info, call); fn != nil && fn.Pkg() != nil && fn.Pkg().Path() == "sort" {
+				if fn := Callee(info, call); fn != nil && callSorts(p, fn, 2) {
 					sortCall = call
 				}
 				if identObj(info, call.Fun) == cbObj {
